@@ -49,6 +49,12 @@ Proof.
   - apply eqb_eq in E. subst a. rewrite (par_notin q l Ha). cbn. split; auto.
   - rewrite xorb_false_l, IH. split; [cbn; auto|]. intros [H|H]; [|exact H]. subst a. now rewrite eqb_refl' in E.
 Qed.
+Lemma par_true_in q l : par q l = true -> In q l.
+Proof.
+  induction l as [|a l IH]; [discriminate|]. rewrite par_cons. destruct (eqb q a) eqn:E.
+  - apply eqb_eq in E. subst. cbn; auto.
+  - rewrite xorb_false_l. cbn; auto.
+Qed.
 Lemma rends_cons p M : rends (p :: M) = (rend (fst p) ++ rend (snd p)) ++ rends M.
 Proof. reflexivity. Qed.
 Lemma cost_cons p M : cost (p :: M) = d (fst p) (snd p) + cost M.
